@@ -16,28 +16,31 @@ import struct
 from ..common import leanio
 from ..common.leanio import InfraError
 from . import c20_util as u
+from . import c20_pipe
 
 PID = 'C20'
-DRIVERS = ['rv']
-MODULE = 'PymtlVerif.Props.C20'
+DRIVERS = ['rv'] + c20_pipe.DRIVERS
+MODULE = ['PymtlVerif.Props.C20', c20_pipe.MODULE]
 THEOREMS = ['PV.C20.' + t for t in [
   'decode_encode', 'encode_injective', 'decode_iff', 'encode_lt', 'decode_zero',
   'imm12_sign_extended', 'imm13_sign_extended',
   'step_ok', 'init_ok', 'x0_step', 'x0_run', 'run_ok', 'shift_low5', 'pc_next',
   'mem_little_endian', 'load_store', 'lw_after_sw', 'run_out_prefix', 'run_count',
   'cksum_fl_eq_spec', 'cksum_rtl_eq_spec', 'cksum_agree', 'cksum_units_agree', 'cksum_msg_agree',
-  'unpack_pack_words', 'cksum_lt']]
+  'unpack_pack_words', 'cksum_lt']] + c20_pipe.THEOREMS
+THEOREM_MODULE = dict(c20_pipe.THEOREM_MODULE)
 TRUSTED = [
   'Model/TinyRV0.lean is a reading of tinyrv0-isa.md (decode table, sign-extended I/S/B immediates, little-endian '
   'byte memory, x0 = 0, mngr2proc dequeue / proc2mngr enqueue, reset vector 0x200); CSRR/CSRW are taken as the '
   'pseudo-instructions csrrs rd,csr,x0 / csrrw x0,csr,rs1 (unused register field must be 0, as in the repo\'s encoding table)',
-  'NO THEOREM relates ProcFL / ProcCL / the five-stage ProcRTL (stall, bypass, squash logic; FL/CL/RTL adapters) to the '
-  'ISA model: that part of the property rests on this run\'s differential execution only',
+  'ProcFL / ProcCL and the FL/CL/RTL adapters are related to the ISA model by this run\'s differential execution only; the '
+  'five-stage ProcRTL is modelled cycle by cycle in Model/Pipe.lean (theorems in Props/C20p.lean, see c20_pipe.TRUSTED for what '
+  'is proved about it and what still rests on differential execution)',
   'Model/Cksum.lean follows ChecksumFL.checksum, ChecksumRTL (StepUnit chain) and utils.words_to_b128 / b128_to_words; '
   'the queues / handshakes of ChecksumCL / ChecksumRTL are not modelled (function of the message only)',
   'the recording sink (subclass of TestSinkCL with the same ready/delay behaviour) replaces the asserting sink in the '
   'repo\'s harnesses; a run ends 40 cycles after the expected number of messages arrived (extra messages are recorded)',
-]
+] + c20_pipe.TRUSTED
 ASSUMPTIONS = [
   'programs are TinyRV0 programs the ISA defines completely: aligned accesses below 1MB, stores only to the data window '
   '0x2000..0x20ff, CSRs mngr2proc (read) / proc2mngr (write) only, termination by running into the zero word after the last '
@@ -385,11 +388,13 @@ def run(ck):
   check_cksum(ck, 150 if quick else 3000)
   if quick: check_programs(ck, 30, 2, [25, 50, 80, 120], 4000, nfar=3, far_ncfg=1, nalias=4)
   else: check_programs(ck, 400, 2, [20, 40, 60, 90, 140, 200], 6000, nfar=40, far_ncfg=2, nalias=40)
+  c20_pipe.run(ck)
 
 def replay(ck, data):
   c = data['case']
   if c is None:
     print('no failing input recorded'); return 0
+  if c.get('part') in ('pipe', 'pipe-reset'): return c20_pipe.replay(ck, data)
   if c.get('part') == 'program':
     text, inp, cfg, level = c['text'], c['inp'], c['cfg'], c['level']
     words = u.image_words(u.assemble(text))
